@@ -349,6 +349,11 @@ func scopeFill(rv reflect.Value, j interface{}) {
 		a := j.([]interface{})
 		s := reflect.MakeSlice(rv.Type(), len(a), len(a))
 		for i := range a {
+			// {"$alias": k}: this element is the SAME pointer as element k (one object reached along two paths)
+			if m, ok := a[i].(map[string]interface{}); ok && len(m) == 1 && m["$alias"] != nil && rv.Type().Elem().Kind() == reflect.Ptr {
+				s.Index(i).Set(s.Index(int(m["$alias"].(float64))))
+				continue
+			}
 			scopeFill(s.Index(i), a[i])
 		}
 		rv.Set(s)
